@@ -107,7 +107,7 @@ func Blocks(tier string) []Lattice {
 		// n=3 on the sub-lattice without historical usage / k
 		n3 := Lattice{Name: "n3-sub-nousage", N: 3, Totals: fullTotals, Ks: []float64{0},
 			Des: []float64{0, 1, -1}, Lim: []float64{-1, 1}, Wt: fullWt, Prio: fullPrio,
-			Req: []float64{0, .5, 2}, Use: []float64{0}, Plan: "perms+seeds+tb"}
+			Req: []float64{0, .5, 2}, Use: []float64{0}, Plan: "perms+tb"}
 		// a small n=3 block that does exercise time-based fairness (k>0, usage) so that the quick tier
 		// is not blind to it for three queues
 		n3k := Lattice{Name: "n3-sub-tbf", N: 3, Totals: []float64{1, 3, 4, 7}, Ks: []float64{1, 2},
@@ -119,7 +119,7 @@ func Blocks(tier string) []Lattice {
 	n2.Plan = "all"
 	n3a := Lattice{Name: "n3-nousage", N: 3, Totals: fullTotals, Ks: []float64{0},
 		Des: fullDes, Lim: []float64{-1, 1, 3}, Wt: fullWt, Prio: fullPrio,
-		Req: []float64{0, .5, 2, 5}, Use: []float64{0}, Plan: "perms+tb"}
+		Req: []float64{.5, 2, 5}, Use: []float64{0}, Plan: "perms+tb"}
 	n3b := Lattice{Name: "n3-tbf", N: 3, Totals: fullTotals, Ks: []float64{1, 2},
 		Des: []float64{0, 1}, Lim: []float64{-1, 1}, Wt: fullWt, Prio: fullPrio,
 		Req: []float64{.5, 2, 5}, Use: fullUse, Plan: "perms+seeds+tb"}
@@ -129,7 +129,7 @@ func Blocks(tier string) []Lattice {
 	n4k := Lattice{Name: "n4-sub-tbf", N: 4, Totals: []float64{2, 4, 7}, Ks: []float64{2},
 		Des: []float64{0}, Lim: []float64{-1}, Wt: []float64{1, 2}, Prio: fullPrio,
 		Req: []float64{.5, 5}, Use: fullUse, Plan: "perms"}
-	return []Lattice{n1, n4k, n3b, n4, n2, n3a}
+	return []Lattice{n1, n4k, n2, n3b, n4, n3a}
 }
 
 // permutations of 0..n-1 in lexicographic order (index 0 = identity)
